@@ -309,7 +309,10 @@ check("C04", "fault_enumeration",
       "helper-to-helper channel (upgrade, both multiplications, u/w propagation, r opening, check-zero, final opening), run twice; "
       "one run per (channel, chunk, element, additive error): e in {1,2,15,30} (all 30 in thorough) for 1-byte elements, "
       "{1,2,p-1,(p+1)/2} for 4-byte elements, {+1,+2,+2^32-1,-1} per Fp25519 lane and cross-lane cancelling pairs (+e,-e); each "
-      "helper is the corrupt sender in turn. distinct_nontrivial = faults whose interceptor changed a byte. MAC relation: 12 linear operations (+, -, unary -, +=, -= by value and by reference, scalar *) on MAC shares over 81 pairs of Fp31 and 36 boundary pairs of Fp32BitPrime: the value is right, the MAC component equals r * value for the key of the record's batch, copies consistent; the keys of 3 consecutive validation batches (window 4, 12 records) are equal inside a batch and different between batches.",
+      "helper is the corrupt sender in turn. The scalar drivers keep every record's own outcome (validation failed / validated / "
+      "opened value): an unnoticed deviation is tolerated only in the 31-element field (1/|F| event), a batch whose check failed on "
+      "an honest helper has no record whose validation returned Ok there, and in the 32-bit field no honest helper opens a value other "
+      "than the untampered one. distinct_nontrivial = faults whose interceptor changed a byte. MAC relation: 12 linear operations (+, -, unary -, +=, -= by value and by reference, scalar *) on MAC shares over 81 pairs of Fp31 and 36 boundary pairs of Fp32BitPrime: the value is right, the MAC component equals r * value for the key of the record's batch, copies consistent; the keys of 3 consecutive validation batches (window 4, 12 records) are equal inside a batch and different between batches.",
       [{"name": "mac", "config": "A", "test": "verif::c04::run", "timeout": {"quick": 900, "thorough": 7200},
         "require": {"any": {"tamper_rejected": 100, "honest_runs": 5, "channels_in_census": 30, "two_message_strategies": 12}}},
        {"name": "relation", "config": "A", "test": "verif::c04m::run",
